@@ -22,6 +22,7 @@ type staticResult struct {
 	Status  string
 	Detail  string
 	Witness string
+	Backend string // "" = govc-static
 }
 
 func (e *Engine) runStatic(name, prop string) ([]staticResult, []string) {
@@ -40,6 +41,8 @@ func (e *Engine) runStatic(name, prop string) ([]staticResult, []string) {
 		return e.pureFuncs(prop)
 	case "todo-order":
 		return e.todoOrder(prop)
+	case "enum-roundtrip":
+		return e.enumRoundtrip(prop)
 	}
 	return nil, []string{"unknown static check " + name}
 }
